@@ -273,7 +273,11 @@ def handle (op : String) (args : List String) : String :=
     | some q, some ti, some co, some tn, some bs =>
       if q < 65536 then
         let s := build q ti co tn bs
-        s!"s0={showOpt (toSMF0 tickSort s)} s1={showOpt (toSMF1 tickSort s)}"
+        -- `Bars()[k].AbsTicks` after an export
+        let st := match place (t32 (if q = 0 then 960 else q)) 0 s.bars with
+          | none => "panic"
+          | some (placed, _) => if placed.isEmpty then "-" else natList (placed.map Prod.fst)
+        s!"s0={showOpt (toSMF0 tickSort s)} s1={showOpt (toSMF1 tickSort s)} st={st}"
       else "bad-op"
     | _, _, _, _, _ => "bad-op"
   | "seq.lens" =>        -- Bar.Len for one denominator and all 256 numerators
